@@ -773,4 +773,65 @@ theorem estimate_invariant (op : OptPts) (glsFn : GlsFn) (t : List Pt) (dt R : R
     l1, l2, l3, and_self]
 
 
+
+/-! ## GLS: the iteration -/
+
+/-- **gls_result_def.** Whatever matrix inverse `inv` and state rounding `rnd` are used: a numeric answer of the GLS
+    iteration is either the fallback (the OLS line through the first two MSD points: singular covariance matrix, or 100
+    iterations without convergence), or the (rounded) output of ONE update step `glsUpdate W msd a b` for the inverse `W` of
+    the covariance matrix of the PREVIOUS estimate `(a, b)`, and that step moved the estimate by less than the tolerance —
+    so (by `gls_normal_equations`, for symmetric `W`) the unrounded line solves the weighted normal equations. -/
+theorem gls_result_def (inv : List (List Rat) → Option (List (List Rat))) (rnd : Rat → Rat) (rows : List MsdRow)
+    (msd : List Rat) (n : Nat) : ∀ (fuel : Nat) (a b : Rat) (r : Rat × Rat × Rat),
+    glsLoop inv rnd rows msd n fuel a b = .ok r →
+    glsFallback rows n = .ok r ∨
+    ∃ a0 b0 W, inv (covMatrix msd.length (n : Rat) a0 b0) = some W ∧
+      glsKappa W * glsMu W - glsLam W * glsLam W ≠ 0 ∧
+      r = (rnd (glsUpdate W msd a0 b0).intercept, rnd (glsUpdate W msd a0 b0).slope, (glsUpdate W msd a0 b0).varSlope) ∧
+      rabs (r.1 - a0) + rabs (r.2.1 - b0) < glsTol
+  | 0, _, _, r, h => Or.inl h
+  | fuel + 1, a, b, r, h => by
+    simp only [glsLoop] at h
+    split at h
+    · exact Or.inl h
+    · rename_i W hW
+      split at h
+      · cases h
+      · rename_i hden
+        split at h
+        · rename_i hch
+          simp only [Except.ok.injEq] at h
+          subst h
+          exact Or.inr ⟨a, b, W, hW, hden, rfl, hch⟩
+        · exact gls_result_def inv rnd rows msd n fuel _ _ r h
+
+/-- non-vacuity: one converging run (kernel-checked; exact inverse, no rounding) -/
+example : (glsLoop matInv id [] [1, 2, 3] 4 100 0 1).toBool = true := by decide +kernel
+
+/-- line time scaled by `c` (OLS with an explicit `max_lag` and GLS, any `_diffusion_gls` function): value `/c`, squared
+    standard error `/c²`, localisation variance unchanged, errors unchanged. -/
+theorem estimate_simple_time_scale (glsFn : GlsFn) (c : Rat) (t : List Pt) (dt : Rat) (L : Int) (gls : Bool) :
+    estimateSimple glsFn t (c * dt) L gls =
+      (estimateSimple glsFn t dt L gls).map fun e => ⟨e.value / c, e.var / c ^ 2, e.lv, e.varDefined⟩ := by
+  unfold estimateSimple
+  split
+  · rfl
+  · cases gls with
+    | true =>
+      simp only [if_true]
+      split
+      · rfl
+      · cases glsFn (msdCounts t (some L)) t.length with
+        | error e => rfl
+        | ok r =>
+          simp only [Except.map, Except.ok.injEq, Est.mk.injEq, sqr, and_true]
+          refine ⟨by ring, by ring⟩
+    | false =>
+      have := ols_time_scale c t dt L
+      unfold olsEstimate at this
+      rename_i h2
+      simp only [h2, if_false] at this
+      simpa using this
+
+
 end Verif.C09
